@@ -42,7 +42,8 @@ Inductive pstate :=
 Inductive pending := PendNone | PendRes (id : nat) (e : Z).
 (* the queue's mutex: free between atomic sections, or held for ever/for a while by a thread
    that is blocked on the cond's channel while holding it *)
-Inductive lockst := Free | BSend (k : pending) | BRecv (p : nat).
+Inductive lockst := Free | BSend (k : pending) | BRecv (p : nat)
+  | BBcast.   (* cond.Broadcast is blocked on the full channel, holding the mutex (cond API only: see LBroadcast) *)
 
 Record st := mkSt {
   size : Z;                       (* memoryQueue.size / persistentQueue.queueSize *)
@@ -120,6 +121,18 @@ Definition signal (k : pending) (s : st) : st :=
     let s1 := set_waiting (waiting s - 1) s in
     if tok s1 then set_lock (BSend k) s1
     else deliver k (set_tok true s1).
+
+(* ---- cond.Broadcast (called with the mutex held) ---------------------------------------------------
+     for ; c.waiting > 0; c.waiting-- { c.ch <- struct{}{} }
+   NOTE: no production code calls it — memoryQueue/persistentQueue.Shutdown broadcast on hasMoreElements, which is
+   a sync.Cond, not this type.  It is modelled as part of the cond API (label LBroadcast, excluded from the
+   queues' [reachable] by wf_label) and exercised by the harness through a direct call.
+   One call of [bcast] = the loop up to its first blocking send (or its exit). *)
+Definition bcast (s : st) : st :=
+  if waiting s =? 0 then set_lock Free s
+  else if tok s then set_lock BBcast s
+  else let s1 := set_waiting (waiting s - 1) (set_tok true s) in
+       if waiting s1 =? 0 then set_lock Free s1 else set_lock BBcast s1.
 
 (* ---- blockingDonePool (memory_queue.go; the persistent queue's indexDonePool is never Put to) -------
    sync.Pool.Get returns ANY pooled object or a new one: the environment label [LPick b] chooses which pooled
@@ -247,7 +260,8 @@ Inductive label :=
 | LAwaitCtx (p : nat)           (* wait_for_result: case <-ctx.Done() *)
 | LShutdown
 | LPick (b : nat)               (* environment: the next blockingDonePool.Get returns pooled object b (if pooled) *)
-| LObj (p b : nat).             (* observation only: "request p carries blockingDone b"; refused if it does not *)
+| LObj (p b : nat)              (* observation only: "request p carries blockingDone b"; refused if it does not *)
+| LBroadcast.                   (* cond API: hasMoreSpace.Broadcast() under the mutex (not called by the queues) *)
 
 Definition lock_free (s : st) : bool := match lock s with Free => true | _ => false end.
 
@@ -269,6 +283,9 @@ Definition step (c : cfg) (s : st) (l : label) : option (st * Z) :=
             let s1 := setp p (PLeftTok sz) s in
             match lock s with
             | BSend k => Some (deliver k (set_lock Free s1), 0)   (* the blocked sender's value refills the slot *)
+            | BBcast =>    (* the blocked Broadcast's value refills the slot; waiting--; next iteration *)
+                let s2 := set_waiting (waiting s1 - 1) s1 in
+                Some (if waiting s2 =? 0 then set_lock Free s2 else s2, 0)
             | _ => Some (set_tok false s1, 0)
             end
           else None
@@ -321,6 +338,9 @@ Definition step (c : cfg) (s : st) (l : label) : option (st * Z) :=
                 | Some b' => if Nat.eqb b' b then Some (s, 0) else None
                 | None => None
                 end
+  | LBroadcast => if lock_free s then
+                    let s1 := bcast s in Some (s1, match lock s1 with Free => 0 | _ => c_sigblocked end)
+                  else None
   end.
 
 Fixpoint run (c : cfg) (s : st) (ls : list label) : option st :=
@@ -334,6 +354,7 @@ Fixpoint run (c : cfg) (s : st) (ls : list label) : option st :=
 Definition wf_label (c : cfg) (l : label) : Prop :=
   match l with
   | LOffer _ sz => kind c = Pers -> 0 <= sz
+  | LBroadcast => False            (* never issued by the queues *)
   | _ => True
   end.
 
@@ -344,7 +365,7 @@ Definition reachable (c : cfg) (s : st) : Prop :=
    opposed to the environment's (a new Offer, a cancellation, Shutdown) *)
 Definition internal (l : label) : bool :=
   match l with
-  | LOffer _ _ | LCancel _ | LShutdown | LPick _ | LObj _ _ => false
+  | LOffer _ _ | LCancel _ | LShutdown | LPick _ | LObj _ _ | LBroadcast => false
   | _ => true
   end.
 
@@ -416,7 +437,12 @@ Definition is_await (v : pstate) : bool := match v with PAwait => true | _ => fa
 Definition mu (s : st) : Z :=
   6 * Z.of_nat (length (items s)) + 3 * Z.of_nat (length (inflight s)) +
   7 * cnt is_insel (prods s) + 8 * cnt is_lefttok (prods s) + cnt is_leftctx (prods s) +
-  cnt is_await (prods s) + 2 * (b2z (tok s) + sb s).
+  cnt is_await (prods s) + 2 * (b2z (tok s) + sb s) +
+  2 * (match lock s with BBcast => waiting s | _ => 0 end).
+
+(* runs of the cond API: every label, including Broadcast *)
+Definition reachable_api (c : cfg) (s : st) : Prop :=
+  exists ls, run c init ls = Some s.
 
 Definition internal_run (ls : list label) : Prop := Forall (fun l => internal l = true) ls.
 
